@@ -2,7 +2,7 @@
    Theorems over the REGENERATED translations of P11Attribute::retrieve (guard prefix), the one-way flag
    updaters and the class table (gen/Gen_Pure.v, gen/Gen_Table.v).  Statements only. *)
 From Coq Require Import List NArith Bool String.
-From SoftHSM Require Import Gen_Const Gen_Pure Gen_Table AttrFacts.
+From SoftHSM Require Import Gen_Entry EntryFacts Gen_Const Gen_Pure Gen_Table AttrFacts.
 Import ListNotations.
 Local Open Scope N_scope.
 
@@ -46,3 +46,21 @@ Print Assumptions C02_wrap_with_trusted_one_way.
 Theorem C02_flag_updaters_bound : flag_rows_check = true.
 Proof. exact flag_rows. Qed.
 Print Assumptions C02_flag_updaters_bound.
+
+(* C_WrapKey (regenerated): an unextractable key is never wrapped, a WRAP_WITH_TRUSTED key only under a trusted wrapping key *)
+Theorem C02_WrapKey_refuses : forall (e : C_WrapKey.env),
+  bounded (C_WrapKey.haveRead e) -> bounded1 (C_WrapKey.MechParamCheckRSAPKCSOAEP e) -> C_WrapKey.zz_rest e = SENTINEL ->
+  C_WrapKey.app e = SENTINEL ->
+  let kgb := C_WrapKey.key_getBooleanValue e in let wgb := C_WrapKey.wrapKey_getBooleanValue e in
+  let wgu := C_WrapKey.wrapKey_getUnsignedLongValue e in let mech := C_WrapKey.pMechanism_mechanism e in
+  let hr := C_WrapKey.haveRead e in let sst := C_WrapKey.session_getState e in
+  kgb CKA_EXTRACTABLE false = true /\
+  (kgb CKA_WRAP_WITH_TRUSTED false = true -> wgb CKA_TRUSTED false = true) /\
+  wgb CKA_WRAP false = true /\
+  C_WrapKey.isMechanismPermitted e (C_WrapKey.handleManager_getObject e (C_WrapKey.hWrappingKey e)) (C_WrapKey.pMechanism e) = true /\
+  hr sst (if wgb CKA_TOKEN false then 1 else 0) (if wgb CKA_PRIVATE true then 1 else 0) = CKR_OK /\
+  hr sst (if kgb CKA_TOKEN false then 1 else 0) (if kgb CKA_PRIVATE true then 1 else 0) = CKR_OK /\
+  ((mech = CKM_AES_KEY_WRAP \/ mech = CKM_AES_KEY_WRAP_PAD) -> wgu CKA_CLASS CKO_VENDOR_DEFINED = CKO_SECRET_KEY /\ wgu CKA_KEY_TYPE CKK_VENDOR_DEFINED = CKK_AES) /\
+  ((mech = CKM_RSA_PKCS \/ mech = CKM_RSA_PKCS_OAEP) -> wgu CKA_CLASS CKO_VENDOR_DEFINED = CKO_PUBLIC_KEY /\ wgu CKA_KEY_TYPE CKK_VENDOR_DEFINED = CKK_RSA).
+Proof. exact WrapKey_guards. Qed.
+Print Assumptions C02_WrapKey_refuses.
